@@ -761,7 +761,11 @@ class SQLParser(Parser):
 
     @_('INTEGER')
     def integer(self, p):
-        return int(p[0])
+        try:
+            return int(p[0])
+        except ValueError:
+            # python refuses to convert very long digit strings
+            raise ParsingException(f'Integer literal is too long: {p[0][:20]}...')
 
     @_('QUOTE_STRING')
     def quote_string(self, p):
